@@ -51,6 +51,65 @@ def h09_timeout_cleanup(S):
     S.check("no-stall", out["returned"])
 
 
+def h09_rabbit(S):
+    """RabbitMQ: the prefetch window (= tasks_limit) stays fully usable after retries, so free slots get deliverable messages."""
+    from repid import Job, Router, Worker
+    from repid.converter import BasicConverter
+
+    confirm = [0, 3][S.pick("confirm_after_delivery", 2)]
+    backoff_ms = [0, 5][S.pick("retry_backoff_ms", 2)]
+    runs = []
+    done = []
+    out = {}
+
+    async def main(loop):
+        w = World(backend="rabbit")
+        await w.open(record=False)
+        w.srv.confirm_turns = confirm
+        r = Router()
+        gate = asyncio.Event()
+
+        @r.actor(converter=BasicConverter, retry_policy=lambda retry_number=1: real_timedelta(milliseconds=backoff_ms))
+        async def flaky():
+            runs.append("flaky")
+            if runs.count("flaky") == 1:
+                raise ValueError("first attempt fails")
+            done.append("flaky")
+
+        @r.actor(converter=BasicConverter)
+        async def long():
+            runs.append("long")
+            await asyncio.wait_for(gate.wait(), timeout=Fraction(1, 2))      # needs `short` to run next to it
+            done.append("long")
+
+        @r.actor(converter=BasicConverter)
+        async def short():
+            runs.append("short")
+            gate.set()
+            done.append("short")
+
+        await Job("flaky", retries=1, _connection=w.conn).enqueue()
+        worker = Worker(routers=[r], handle_signals=[], _connection=w.conn, graceful_shutdown_time=1.0, messages_limit=4, tasks_limit=2)
+        task = asyncio.create_task(worker.run())
+        await asyncio.sleep(Fraction(1, 10))            # the retry has been processed; the worker is idle with two free slots
+        await Job("long", _connection=w.conn).enqueue()
+        await Job("short", _connection=w.conn).enqueue()
+        try:
+            await asyncio.wait_for(task, timeout=3)
+            out["returned"] = True
+        except asyncio.TimeoutError:
+            out["returned"] = False
+
+    try:
+        run_async(main)
+    except Deadlock:
+        S.check("no-stall", False, info="deadlock")
+        return
+    S.cover("rabbit-retry-then-two-jobs")
+    S.check("free-slot-gets-the-next-deliverable-message", sorted(done) == ["flaky", "long", "short"] and out["returned"],
+            info=f"runs={runs} completed={done}: with two slots `short` must run while `long` waits for it")
+
+
 def h09(S, n_jobs=2, queues=1, max_limit=3, dmax_us=3000, late=False, backend="mem", late_max_us=None, fixed_d_us=None, self_cancel=False, foreign=False):
     from repid import Job, Router, Worker
     from repid.converter import BasicConverter
@@ -209,5 +268,18 @@ HARNESSES = [
         covers=["run-returned"],
     ),
 ]
+HARNESSES.append(
+    Harness(name="H09-rabbit", scenario=h09_rabbit,
+            bounds={"jobs": "one job that fails once and is retried (back-off 0 or 5 ms), then a job that waits up to 0.5 s for another one to run beside it",
+                    "tasks_limit": "2 (= prefetch window)", "publisher confirm": "before or after the delivery it causes"},
+            functions=["connections/rabbitmq/message_broker.py:RabbitMessageBroker.requeue", "connections/rabbitmq/consumer.py:_RabbitConsumer.on_new_message"],
+            covers=["rabbit-retry-then-two-jobs"], stubs=["fake AMQP server with a prefetch window"]))
+from harness.c11 import h11_redis_window  # noqa: E402
+
+HARNESSES.append(
+    Harness(name="H09-redis-window", scenario=h11_redis_window, workers=8,
+            bounds={"as H11-redis-window": "free slots and a deliverable own job behind 1..5 foreign messages, fetch window 2, normal list or due-delayed set"},
+            functions=["connections/redis/consumer.py:_RedisConsumer.__fetch_message_name", "worker.py:Worker.run"], covers=["window-checked"],
+            stubs=["fake Redis server"]))
 ASSUMPTIONS = ["virtual time: timers fire exactly at their deadline; the 1 ms polling of the in-memory consumer runs concretely",
                "every path is one ordering class of timer events, decided by z3 over the symbolic durations"]
